@@ -1178,6 +1178,10 @@ pub fn rawparts_ops(case: &mut Case, n: usize, full: bool) -> Vec<Vec<Op>> {
 // ---------------------------------------------------------------------------------------------
 // forgotten handles and iterators (C07)
 
+fn at_end_excl() -> Bound<usize> {
+    Bound::Excluded(AT_LEN)
+}
+
 pub fn forget_ops(case: &mut Case, n: usize, full: bool) -> Vec<Vec<Op>> {
     let mut firsts: Vec<Op> = Vec::new();
     if n > 0 {
@@ -1246,11 +1250,31 @@ pub fn forget_ops(case: &mut Case, n: usize, full: bool) -> Vec<Vec<Op>> {
     // followed by further use of the vector
     let mut seqs = Vec::new();
     for (i, f) in firsts.into_iter().enumerate() {
-        let follow: Vec<Op> = match i % 4 {
+        let at_end = Bound::Included(AT_LEN);
+        let follow: Vec<Op> = match i % 8 {
             0 => vec![Op::TPush { v: 0, id: case.fresh_id() }, Op::Pop { v: 0, sink: Sink::DOWNCAST }],
             1 => vec![Op::Push { v: 0, src: Src::Raw(case.fresh_id()) }, Op::Iter { v: 0, how: IterHow::Iter, rev: false }, Op::Clear { v: 0 }],
             2 => vec![Op::Insert { v: 0, at: 0, src: Src::Remove(OTHER, 0) }, Op::Drain { v: 0, lo: Bound::Unbounded, hi: Bound::Unbounded, typed: false, script: vec![], end: End::Drop }],
-            _ => vec![Op::Remove { v: OTHER, at: 0, sink: Sink::new(Pre::None, Fin::Push(0)) }, Op::TPop { v: 0 }],
+            3 => vec![Op::Remove { v: OTHER, at: 0, sink: Sink::new(Pre::None, Fin::Push(0)) }, Op::TPop { v: 0 }],
+            // a second leak on top of the first one: another forgotten range iterator that has handed out an item ...
+            4 => vec![
+                Op::Drain { v: 0, lo: Bound::Unbounded, hi: Bound::Unbounded, typed: false, script: vec![Step { back: false, sink: Sink::DROP, skip: 0 }], end: End::Forget },
+                Op::TPush { v: 0, id: case.fresh_id() },
+                Op::Iter { v: 0, how: IterHow::Iter, rev: false },
+            ],
+            // ... or another forgotten removal handle
+            5 => vec![Op::Pop { v: 0, sink: Sink::FORGET }, Op::Push { v: 0, src: Src::Raw(case.fresh_id()) }, Op::Iter { v: 0, how: IterHow::TIter, rev: false }, Op::Clear { v: 0 }],
+            // appending through splice (start == len, whatever the leak left)
+            6 => vec![
+                Op::Splice { v: 0, lo: at_end, hi: Bound::Unbounded, typed: false, repl: Repl::Wrappers(vec![case.fresh_id(), case.fresh_id()]), script: vec![], end: End::Drop },
+                Op::Iter { v: 0, how: IterHow::Iter, rev: false },
+                Op::TPop { v: 0 },
+            ],
+            _ => vec![
+                Op::Splice { v: 0, lo: Bound::Unbounded, hi: Bound::Unbounded, typed: true, repl: Repl::Wrappers(vec![case.fresh_id()]), script: vec![Step { back: true, sink: Sink::DOWNCAST, skip: 0 }], end: End::Forget },
+                Op::Splice { v: 0, lo: at_end, hi: at_end_excl(), typed: false, repl: Repl::Wrappers(vec![case.fresh_id()]), script: vec![], end: End::Drop },
+                Op::Iter { v: 0, how: IterHow::Iter, rev: true },
+            ],
         };
         let mut s = vec![f];
         if case.cfg.fixed_cap.is_none() {
@@ -1307,6 +1331,44 @@ pub fn fault_enum(
     if ctx.sampled && ctx.only.is_none() {
         return fault_sampled(ctx, family, cfgs, l, gen);
     }
+    fault_enum_lens(ctx, family, cfgs, &|cfg| lengths(cfg, l, false), gen, stride)
+}
+
+/// The operations that touch many elements at once (destroy, clone or move them in bulk), for the fault sweep at lengths
+/// beyond the small scope: a panic at the 9th, 17th ... user call of one operation.
+pub fn bulk_ops(case: &mut Case, n: usize, _full: bool) -> Vec<Vec<Op>> {
+    let mut ops = vec![
+        Op::Clear { v: 0 },
+        Op::TClear { v: 0 },
+        // the vector itself is dropped (replaced by an empty clone of another one)
+        Op::CloneEmpty { v: OTHER, into: 0 },
+        Op::Drain { v: 0, lo: Bound::Unbounded, hi: Bound::Unbounded, typed: false, script: vec![], end: End::Drop },
+        Op::Drain { v: 0, lo: Bound::Unbounded, hi: Bound::Unbounded, typed: true, script: vec![], end: End::Drop },
+    ];
+    if case.cfg.cloneable {
+        ops.push(Op::CloneVec { v: 0, into: SPARE });
+    }
+    if n >= 4 {
+        let front = vec![Step { back: false, sink: Sink::DOWNCAST, skip: 0 }];
+        ops.push(Op::Drain { v: 0, lo: Bound::Included(1), hi: Bound::Excluded(n - 1), typed: false, script: front.clone(), end: End::Drop });
+        ops.push(Op::Drain { v: 0, lo: Bound::Included(1), hi: Bound::Excluded(n - 1), typed: false, script: vec![], end: End::Count });
+        ops.push(Op::Splice { v: 0, lo: Bound::Included(1), hi: Bound::Excluded(n - 1), typed: false, repl: Repl::Wrappers(vec![case.fresh_id(), case.fresh_id()]), script: vec![], end: End::Drop });
+        ops.push(Op::Splice { v: 0, lo: Bound::Included(1), hi: Bound::Excluded(n - 1), typed: true, repl: Repl::Wrappers(vec![case.fresh_id()]), script: front, end: End::Drop });
+    }
+    singles(ops)
+}
+
+pub fn fault_enum_lens(
+    ctx: &mut Ctx,
+    family: &str,
+    cfgs: &[CfgEntry],
+    lens_of: &dyn Fn(&CfgEntry) -> Vec<usize>,
+    gen: &dyn Fn(&mut Case, usize, bool) -> Vec<Vec<Op>>,
+    stride: usize,
+) {
+    if ctx.sampled && ctx.only.is_none() {
+        return;
+    }
     ctx.begin_family(family);
     let full = ctx.thorough();
     for cfg in cfgs {
@@ -1314,7 +1376,7 @@ pub fn fault_enum(
             continue;
         }
         ctx.begin_cfg(cfg);
-        for len in lengths(cfg, l, false) {
+        for len in lens_of(cfg) {
             for st in states_for(cfg, len) {
                 if cfg.fixed_cap.map_or(false, |c| c < OTHER_LEN) {
                     continue;
@@ -1481,9 +1543,13 @@ pub fn lying_ops(case: &mut Case, n: usize, full: bool) -> Vec<Vec<Op>> {
     for a in 0..=n {
         for b in a..=n {
             for k in 0..=k_max {
-                for delta in [-2i8, -1, 1, 2] {
+                // constant lies of several magnitudes; lies that start with the second len() call (40+d); lies on the first call only (80+d)
+                for delta in [-2i8, -1, 1, 2, -5, 5, 7, 45, 38, 42, 85, 78, 83] {
+                    if (a + 2 * b + k) % 2 == 1 && delta.abs() > 2 {
+                        continue;
+                    }
                     if let Some(c) = case.cfg.fixed_cap {
-                        let reported = (k as isize + delta as isize).max(0) as usize;
+                        let reported = (k as isize + lie_decode(delta).0).max(0) as usize;
                         if n - (b - a) + k.max(reported) > c {
                             continue;
                         }
